@@ -10,6 +10,7 @@ import (
 	"sort"
 	"strings"
 	"sync"
+	"sync/atomic"
 	"time"
 )
 
@@ -94,6 +95,11 @@ func (g *gateCtl) loop() {
 		default:
 		}
 		g.polls++
+		if atomic.LoadInt32(&gateHold) > 0 {
+			// a scripted interruption of a wait is on its way: not a quiescent point yet
+			time.Sleep(200 * time.Microsecond)
+			continue
+		}
 		a := g.snapshot()
 		if len(a) == 0 {
 			if g.onIdle != nil {
@@ -110,7 +116,7 @@ func (g *gateCtl) loop() {
 		if strict {
 			// a second look: still quiescent with the same calls in flight
 			b := g.snapshot()
-			if strict2, _ := quiescent(buf); strict2 && sameInts(a, b) {
+			if strict2, _ := quiescent(buf); strict2 && sameInts(a, b) && atomic.LoadInt32(&gateHold) == 0 {
 				g.release(b)
 			}
 			continue
@@ -124,7 +130,7 @@ func (g *gateCtl) loop() {
 		// moves for 25 ms
 		time.Sleep(25 * time.Millisecond)
 		b := g.snapshot()
-		if _, sig2 := quiescent(buf); sig2 == sig1 && sameInts(a, b) {
+		if _, sig2 := quiescent(buf); sig2 == sig1 && sameInts(a, b) && atomic.LoadInt32(&gateHold) == 0 {
 			forcedReleases++
 			g.release(b)
 		}
@@ -174,6 +180,9 @@ func (g *gateCtl) release(codes []int) {
 
 var forcedReleases int
 
+// gateHold > 0: the harness itself is about to act on the system (cancel the context)
+var gateHold int32
+
 // quiescent: every goroutine other than the caller is parked at a point from which only the
 // controller (or the end of the run) can wake it, recognised by wait state AND frame.  The
 // second result is a signature of all goroutines when every one of them is at least blocked
@@ -207,8 +216,11 @@ func quiescent(buf []byte) (bool, string) {
 		case "chan receive":
 			ok = strings.Contains(body, "main.gateWait(") || strings.Contains(body, "main.(*gateCtl).stop(") || strings.Contains(body, "main.runPoolGated(")
 		case "select":
-			ok = strings.Contains(body, "flyt.(*WorkerPool).worker(") || strings.Contains(body, "main.runEngine(") ||
-				strings.Contains(body, "main.runPoolGated(") || strings.Contains(body, "main.observeConfig(")
+			// the innermost frame decides: a select further up the stack of a worker (the retry wait
+			// of an item) is not a parking place
+			top := topFrame(body)
+			ok = strings.HasPrefix(top, "github.com/mark3labs/flyt.(*WorkerPool).worker(") || strings.HasPrefix(top, "main.runEngine(") ||
+				strings.HasPrefix(top, "main.runPoolGated(") || strings.HasPrefix(top, "main.observeConfig(")
 		case "chan send":
 			ok = strings.Contains(body, "flyt.(*WorkerPool).Submit(")
 		case "semacquire", "sync.WaitGroup.Wait":
@@ -227,4 +239,15 @@ func quiescent(buf []byte) (bool, string) {
 		}
 	}
 	return strict, sig.String()
+}
+
+// topFrame: the first function line of a goroutine's stack
+func topFrame(body string) string {
+	for _, ln := range strings.Split(body, "\n") {
+		ln = strings.TrimSpace(ln)
+		if ln != "" {
+			return ln
+		}
+	}
+	return ""
 }
